@@ -146,6 +146,81 @@ theorem tcallTail_ok {s s' : St H} {lam fa n B : Nat} {E I : VCell} (h : tcallTa
       simp only [n1, n2, n3, if_false]
       exact c5 i (by omega)
 
+/-- the cells of the new argument block TCALL builds are the cells of the block under the `argc` on top -/
+theorem tcallTail_args {s s' : St H} {lam fa n B : Nat} {E I : VCell} (h : tcallTail s lam = .ok s')
+    (hcap : s.stack.sp < s.stack.cells.length)
+    (hfa : s.stack.cellAt (s.bp + 1) = .argc fa) (hE : s.stack.cellAt (s.bp + 2) = E)
+    (hI : s.stack.cellAt (s.bp + 3) = I) (hB : s.stack.cellAt (s.bp + 4) = .basePtr B)
+    (htop : s.stack.cellAt s.stack.sp = .argc n) (hroom : s.bp + 4 + n < s.stack.sp) (hbase : fa ≤ s.bp) :
+    ∀ i, s.bp - fa < i → i ≤ s.bp - fa + n →
+      ∃ j, s.stack.sp - 1 - n < j ∧ j < s.stack.sp ∧ s'.stack.cellAt i = s.stack.cellAt j := by
+  unfold tcallTail at h
+  obtain ⟨argc, h1, h⟩ := bind_inv h
+  obtain ⟨v0, g0, a0⟩ := bind_inv h1
+  obtain ⟨fargc, h2, h⟩ := bind_inv h
+  obtain ⟨v1, g1, a1⟩ := bind_inv h2
+  have e0 := asArgc_ok a0
+  have e1 := asArgc_ok a1
+  have g0' := getOffset_ok (k := 0) (by simpa using g0)
+  rw [e0] at g0'
+  simp only [Nat.sub_zero] at g0'
+  rw [htop] at g0'
+  have en : argc = n := by have := g0'.2; cases this; rfl
+  subst en
+  have ef : fargc = fa := by
+    have := (get_ok g1).1
+    rw [e1, hfa] at this
+    cases this; rfl
+  subst ef
+  split at h
+  · rename_i heq
+    subst heq
+    obtain ⟨sb, g4, h⟩ := bind_inv h
+    obtain ⟨st, hcp, h⟩ := bind_inv h
+    obtain ⟨bp', ab, h⟩ := bind_inv h
+    cases h
+    obtain ⟨st', c1, c2, c3, c4, c5⟩ :=
+      tcallCopySame_spec argc 0 s.bp s.stack hcap (by omega) (by omega)
+    rw [c1] at hcp
+    cases hcp
+    intro i hi1 hi2
+    have hc : ∀ i, (Stack.cellAt { cells := st.cells, sp := s.bp + 3 } i) = st.cellAt i := fun _ => rfl
+    refine ⟨s.stack.sp - 1 - (s.bp - i), by omega, by omega, ?_⟩
+    show Stack.cellAt { cells := st.cells, sp := s.bp + 3 } _ = _
+    rw [hc]
+    have := c4 (s.bp - i) (by omega)
+    have e : s.bp - 0 - (s.bp - i) = i := by omega
+    rw [e] at this
+    rw [this]
+    simp
+  · rename_i hne
+    obtain ⟨se, g2, h⟩ := bind_inv h
+    obtain ⟨si, g3, h⟩ := bind_inv h
+    obtain ⟨sb, g4, h⟩ := bind_inv h
+    obtain ⟨sp0, hu, h⟩ := bind_inv h
+    obtain ⟨st, hcp, h⟩ := bind_inv h
+    obtain ⟨bp', ab, h⟩ := bind_inv h
+    cases h
+    obtain ⟨_, u2⟩ := usub_ok hu
+    subst u2
+    obtain ⟨st', c1, c2, c3, c4, c5, c6⟩ :=
+      tcallCopyDiff_spec argc s.stack.sp { s.stack with sp := s.bp - fargc } hcap (by simp; omega)
+    rw [c1] at hcp
+    cases hcp
+    simp only at c2 c4 c5 c6
+    intro i hi1 hi2
+    refine ⟨s.stack.sp - argc + (i - (s.bp - fargc + 1)), by omega, by omega, ?_⟩
+    simp only [push_cellAt, push_sp, c2]
+    have n1 : ¬ (i = s.bp - fargc + argc + 1 + 1 + 1) := by omega
+    have n2 : ¬ (i = s.bp - fargc + argc + 1 + 1) := by omega
+    have n3 : ¬ (i = s.bp - fargc + argc + 1) := by omega
+    simp only [n1, n2, n3, if_false]
+    have := c4 (i - (s.bp - fargc + 1)) (by omega)
+    have e : s.bp - fargc + 1 + (i - (s.bp - fargc + 1)) = i := by omega
+    rw [e] at this
+    rw [this]
+    rfl
+
 /-! ## VARARG -/
 
 theorem put_ext {cl : CodeLaws ops} {h h' : H} {v a : VCell} (hi : cl.HInv h) (hp : ops.put h v = (h', a)) :
@@ -286,5 +361,144 @@ theorem stepVarArg_ok {cl : CodeLaws ops} {s s' : St H} {n : Nat} {E I : VCell} 
           have n4 : ¬ (i = st4.sp + 1) := by omega
           simp only [n1, n2, n3, n4, if_false]
           exact hc4 i
+
+/-- VARARG leaves `args.len()` of the running code object as the argument count, over values -/
+theorem stepVarArg_vals {cl : CodeLaws ops} {s s' : St H} {n : Nat} (hi : cl.HInv s.heap)
+    (h : stepVarArg ops s = .ok s') (hn : n + 3 ≤ s.stack.sp)
+    (hA : s.stack.cellAt (s.stack.sp - 2) = .argc n)
+    (hv : ∀ i, s.stack.sp - 3 - n < i → i ≤ s.stack.sp - 3 → cl.Val (s.stack.cellAt i)) :
+    ∃ info, ops.lambdaInfo s.heap s.ipL = some info ∧
+      s'.stack.cellAt (s'.stack.sp - 2) = .argc info.argc ∧
+      ∀ i, s'.stack.sp - 3 - info.argc < i → i ≤ s'.stack.sp - 3 → cl.Val (s'.stack.cellAt i) := by
+  unfold stepVarArg at h
+  split at h
+  · cases h
+  · rename_i info hinfo
+    refine ⟨info, hinfo, ?_⟩
+    obtain ⟨req, hu, h⟩ := bind_inv h
+    obtain ⟨argc, h1, h⟩ := bind_inv h
+    obtain ⟨v2, g2, a2⟩ := bind_inv h1
+    have e2 : (-2 : Int) = -((2 : Nat) : Int) := by omega
+    rw [e2] at g2
+    obtain ⟨_, g2'⟩ := getOffset_ok g2
+    have ea := asArgc_ok a2
+    rw [ea, hA] at g2'
+    cases g2'
+    obtain ⟨u1, u2⟩ := usub_ok hu
+    split at h
+    · cases h
+    · rename_i hlt
+      split at h
+      · rename_i heq
+        obtain ⟨v3, g3, h⟩ := bind_inv h
+        dsimp only at h
+        obtain ⟨pa, _, h⟩ := bind_inv h
+        obtain ⟨pn, _, h⟩ := bind_inv h
+        obtain ⟨st1, hset, h⟩ := bind_inv h
+        cases h
+        have e3 : (-3 : Int) = -((3 : Nat) : Int) := by omega
+        rw [e3] at hset
+        obtain ⟨s1, s2, s3⟩ := setOffset_ok hset
+        subst s3
+        have hc : ∀ (p3 : VCell) i, ¬ i = s.stack.sp - 3 →
+            Stack.cellAt { s.stack with cells := s.stack.cells.set (s.stack.sp - 3) p3 } i = s.stack.cellAt i := by
+          intro p3
+          intro i hne
+          rw [at_set_cells _ _ _ _ s2]
+          simp [hne]
+        have en : info.argc = n := by omega
+        refine ⟨?_, ?_⟩
+        · show Stack.cellAt _ (s.stack.sp - 2) = _
+          rw [hc _ _ (by omega), en]; exact hA
+        · intro i hi1 hi2
+          simp only at hi1 hi2
+          show cl.Val (Stack.cellAt _ i)
+          by_cases hi3 : i = s.stack.sp - 3
+          · rw [at_set_cells _ _ _ _ s2]
+            simp only [hi3, if_true]
+            exact cl.put_val _ _
+          · rw [hc _ _ hi3]
+            exact hv i (by omega) hi2
+      · rename_i hne
+        obtain ⟨⟨c1, st1⟩, hp1, h⟩ := bind_inv h
+        dsimp only at h
+        obtain ⟨⟨c2, st2⟩, hp2, h⟩ := bind_inv h
+        dsimp only at h
+        obtain ⟨⟨c3, st3⟩, hp3, h⟩ := bind_inv h
+        dsimp only at h
+        obtain ⟨pn, _, h⟩ := bind_inv h
+        obtain ⟨⟨h2, lst, st4⟩, hcol, h⟩ := bind_inv h
+        dsimp only at h
+        cases h
+        have p1 := pop_ok hp1
+        have p2 := pop_ok hp2
+        have p3 := pop_ok hp3
+        have x1 : Ext cl s.heap (ops.put s.heap .nil).1 := Ext.step hi (.put _ _)
+        obtain ⟨r1, r2, r3⟩ := varargCollect_ok (cl := cl) _ _ _ _ _ _ _ x1.inv hcol
+        have hc4 : ∀ i, st4.cellAt i = s.stack.cellAt i := by
+          intro i; unfold Stack.cellAt; rw [r2, p3.2.1, p2.2.1, p1.2.1]
+        have en : info.argc = req + 1 := by omega
+        refine ⟨?_, ?_⟩
+        · simp only [push_cellAt, push_sp]
+          have n1 : ¬ (st4.sp + 1 + 1 + 1 + 1 - 2 = st4.sp + 1 + 1 + 1 + 1) := by omega
+          have n2 : ¬ (st4.sp + 1 + 1 + 1 + 1 - 2 = st4.sp + 1 + 1 + 1) := by omega
+          have n3 : (st4.sp + 1 + 1 + 1 + 1 - 2 = st4.sp + 1 + 1) := by omega
+          simp [n1, n2, n3, en]
+        · intro i hi1 hi2
+          simp only [push_sp] at hi1 hi2
+          simp only [push_cellAt, push_sp]
+          have n1 : ¬ (i = st4.sp + 1 + 1 + 1 + 1) := by omega
+          have n2 : ¬ (i = st4.sp + 1 + 1 + 1) := by omega
+          have n3 : ¬ (i = st4.sp + 1 + 1) := by omega
+          simp only [n1, n2, n3, if_false]
+          by_cases hi3 : i = st4.sp + 1
+          · simp only [hi3, if_true]
+            exact cl.val_imm _ rfl
+          · simp only [hi3, if_false]
+            rw [hc4]
+            exact hv i (by omega) (by omega)
+
+theorem tcallTail_acc {s s' : St H} {lam : Nat} (h : tcallTail s lam = .ok s') : s'.acc = s.acc := by
+  unfold tcallTail at h
+  obtain ⟨argc, h1, h⟩ := bind_inv h
+  obtain ⟨fargc, h2, h⟩ := bind_inv h
+  split at h
+  · obtain ⟨sb, g4, h⟩ := bind_inv h
+    obtain ⟨st, hcp, h⟩ := bind_inv h
+    obtain ⟨bp', ab, h⟩ := bind_inv h
+    cases h; rfl
+  · obtain ⟨se, g2, h⟩ := bind_inv h
+    obtain ⟨si, g3, h⟩ := bind_inv h
+    obtain ⟨sb, g4, h⟩ := bind_inv h
+    obtain ⟨sp0, hu, h⟩ := bind_inv h
+    obtain ⟨st, hcp, h⟩ := bind_inv h
+    obtain ⟨bp', ab, h⟩ := bind_inv h
+    cases h; rfl
+
+theorem stepVarArg_acc {s s' : St H} (h : stepVarArg ops s = .ok s') : s'.acc = s.acc := by
+  unfold stepVarArg at h
+  split at h
+  · cases h
+  · obtain ⟨req, hu, h⟩ := bind_inv h
+    obtain ⟨argc, h1, h⟩ := bind_inv h
+    split at h
+    · cases h
+    · split at h
+      · obtain ⟨v3, g3, h⟩ := bind_inv h
+        dsimp only at h
+        obtain ⟨pa, _, h⟩ := bind_inv h
+        obtain ⟨pn, _, h⟩ := bind_inv h
+        obtain ⟨st1, hset, h⟩ := bind_inv h
+        cases h; rfl
+      · obtain ⟨⟨c1, st1⟩, hp1, h⟩ := bind_inv h
+        dsimp only at h
+        obtain ⟨⟨c2, st2⟩, hp2, h⟩ := bind_inv h
+        dsimp only at h
+        obtain ⟨⟨c3, st3⟩, hp3, h⟩ := bind_inv h
+        dsimp only at h
+        obtain ⟨pn, _, h⟩ := bind_inv h
+        obtain ⟨⟨h2, lst, st4⟩, hcol, h⟩ := bind_inv h
+        dsimp only at h
+        cases h; rfl
 
 end Marwood.Vm
